@@ -71,7 +71,8 @@ ASSUMPTIONS = ['a PathNamer constructed directly gets os_type "unix" or "windows
                '"control character" is read as the C0 range 0..31 (what the code and DESIGN.md test); DEL and the '
                'C1 range are not escaped when ascii is off',
                'the url handed to get_filename begins with "<scheme>://" (URLInfo.url of a network scheme)']
-UNPROVED = []
+UNPROVED = ['totality of PathNamer.get_filename on canonical URLs (a path is chosen for EVERY URL) is checked by the oracle only '
+            '(kind namer-raises); known finding: unencoded [ ] in the userinfo make urlsplit refuse URLInfo.url']
 
 PID = 'C15'
 
@@ -387,7 +388,9 @@ def gen_compat_name(rng):
                    for _ in range(rng.choice([1, 2, 3, 5])))
 
 
-SEGS = ['a', 'b.txt', 'index.html', 'Dir', 'IMG.PNG', '%2F', '%2f', '%2E', '%2e%2e', '%2E%2E', '.', '..', '...',
+FORMAT_NAMES = ['{0}', '{0:c}', 'report{0:c}.txt', '..{0!s:.0}', '.{0!s:.0}', '{0!s:.0}', '{}', '{x}', '{0.__class__}', '{0:>300}',
+                '{{', '}', '{', '{0}{0}', '%s', '%(x)s', '%d', '%', '%(', '${x}', '$x', '\\1', '\\g<0>', 'a{0:c}b{1}']
+SEGS = FORMAT_NAMES + ['a', 'b.txt', 'index.html', 'Dir', 'IMG.PNG', '%2F', '%2f', '%2E', '%2e%2e', '%2E%2E', '.', '..', '...',
         '%2E.', '.%2E', '%00', 'a%00b', '%5C', '\\', '%5c..%5c', '..%2F..%2Fetc%2Fpasswd', '%2Fetc%2Fpasswd',
         '..%5C..%5Cx', '%2F%2F', 'é', '日本', '%C3%A9', '%FF', '%E0%80', '%ED%A0%80', '%F0%9F%98%80', '%F0%90',
         '%C3', '%', '%4', '%zz', '%%41', '%25', '%252F', '%252E%252E', ' ', '%20', 'a%20', 'a.', 'a ', 'a%2E',
@@ -405,7 +408,7 @@ HOSTS = ['example.com', 'example.com', 'EXAMPLE.com', 'h', 'localhost', '127.0.0
 GOOD_HOSTS = ['example.com', 'EXAMPLE.com', 'h', 'localhost', '127.0.0.1', '[::1]', '[2001:DB8::1]', 'bücher.de',
               'xn--bcher-kva.de', 'a.b.c.d.e', 'h.', 'ex_ample', '1.2.3', '日本.jp', 'a' * 63 + '.com']
 PORTS = ['', '', '', '', ':80', ':8080', ':21', ':443', ':0', ':65535', ':65536', ':', ':08080', ':x', ':-1']
-QUERIES = ['', '', '', '?', '?a=b', '?x=/', '?../..', '?a=%2F&b=..', '?q=é', '?a b', '?/', '?%00', '?a=b/', '?.', '?..',
+QUERIES = ['?{0:c}', '?a={0!s:.0}/..', '?%s', '', '', '', '?', '?a=b', '?x=/', '?../..', '?a=%2F&b=..', '?q=é', '?a b', '?/', '?%00', '?a=b/', '?.', '?..',
            '?a#frag', '?' + 'q' * 300, '?a=\\', '?%2E%2E%2F']
 
 
@@ -520,6 +523,10 @@ def stream_safe(ctx, real, cases):
         case = {'stream': 'safe', 'cfg': cfg, 'name': name}
         if realtok != rep and not ctxdep:
             ctx.disagree('safe', case, rep, realtok)
+        if exc is not None and not any(0xD800 <= ord(c) <= 0xDFFF for c in name):
+            # a path has to be CHOSEN for every name that is text; only a lone surrogate may be refused
+            ctx.fail('namer-raises', 'safe_filename', dict(case, prior_settings=real.prior(n_prior)),
+                     'safe_filename(%r, %s) raises %s' % (name, safe_kw(cfg), exc))
         if exc is None and oracle_applies(cfg) and name != '':
             p = component_problem(out, cfg)
             if p is None and cfg['os_type'] == 'windows' and any(c in WINCHARS for c in out):
@@ -602,6 +609,16 @@ def stream_name(ctx, real, cases, stream='name'):
             rep = ' '.join(rep.split(' ')[:2])
         if realtok != rep and not ctxdep:
             ctx.disagree(stream, case, rep, realtok)
+        if exc is not None and stream == 'name' and scheme in ('http', 'https', 'ftp'):
+            # cause, not input: does the interpreter's urlsplit itself refuse URLInfo.url?
+            where = 'get_filename'
+            try:
+                urllib.parse.urlsplit(url)
+            except ValueError as e:
+                where = 'urlsplit'
+                exc = '%s (%s)' % (exc, e)
+            ctx.fail('namer-raises', where, dict(case, prior_settings=real.prior(n_prior)),
+                     'get_filename(%r) raises %s: no local path is chosen for a URL that parses' % (url, exc))
         if exc is None and stream == 'name' and oracle_applies(cfg) and scheme in ('http', 'https', 'ftp'):
             p = containment_problem(path, cfg['root'], cfg)
             if p:
@@ -726,6 +743,9 @@ def stream_cd(ctx, real, cases):
             mname = rep.split(' ')[2] if len(rep.split(' ')) > 2 else '?'
             if mname != '=' + enc(ins[0]):
                 ctx.disagree('cd-name', case, mname, '=' + enc(ins[0]))
+        if exc is not None:
+            ctx.fail('namer-raises', 'content_disposition', dict(case, prior_settings=real.prior(n_prior)),
+                     'the Content-Disposition rename raises %s' % exc)
         if exc is None and cur and out != cur and oracle_applies(cfg):
             d = posixpath.dirname(cur)
             comp = out[len(d):].lstrip('/') if out.startswith(d) else None
@@ -794,9 +814,17 @@ def check_writer(ctx, real, scratch, case):
         final = session._filename
         outcome = 'ok'
     except Exception as e:
-        outcome = exc_name(e)
-        chosen = final = None
+        outcome = 'OSError' if type(e).__name__ in ('ProtocolError', 'OSError', 'IOError') else exc_name(e)
+        err = repr(e)
+        chosen = final = getattr(locals().get('session'), '_filename', None)
+        if chosen:
+            ctx.tag('writer:raised-after-choice:' + outcome)
+            outcome = 'OSError'
     ctx.case(key, tags=['writer:' + wname, 'writer:' + outcome] + ['writer:' + o for o in obstacles])
+    if outcome not in ('ok', 'OSError'):        # OSError / ProtocolError: "Server not able to continue file download"
+        ctx.fail('namer-raises', 'writer_session', dict(case, prior_settings=prior),
+                 'the writer session raises %s: no local path is chosen' % err.replace(scratch, '<scratch>'))
+        return
     if not oracle_applies(ncfg):
         return
     for what, path in [('chosen', chosen), ('final', final)] + [('opened', p) for p in opened]:
@@ -823,7 +851,8 @@ def gen_writer_case(rng):
     flags = {'adjust': rng.random() < 0.3, 'trust': rng.random() < 0.2, 'cont': rng.random() < 0.1,
              'status': rng.choice([200, 200, 200, 404, 302, 206]),
              'ctype': rng.choice([None, 'text/html', 'text/css'])}
-    obstacles = [o for o in ('dir-at-file', 'file-at-file', 'file-at-dir') if rng.random() < 0.2]
+    hot = any(ch in raw for ch in '{}%$')       # template look-alikes matter when a suffix has to be appended
+    obstacles = [o for o in ('dir-at-file', 'file-at-file', 'file-at-dir') if rng.random() < (0.45 if hot else 0.2)]
     if 'dir-at-file' in obstacles and 'file-at-file' in obstacles:
         obstacles.remove('file-at-file')
     return {'stream': 'writer', 'cfg': cfg, 'raw': raw, 'header': header, 'writer': rng.choice(WRITERS),
@@ -1077,7 +1106,7 @@ def check_argv(ctx, real, scratch, case, pending):
     os.makedirs(root_dir)
     argv = argv_of(case, root_dir)
     key = ('argv', tuple(map(tuple, case['modes'])), tuple(case['opts']), case['prefix'], tuple(case['urls']),
-           case['header'], case.get('status', 200), case.get('ctype'))
+           case.get('existing'), case['header'], case.get('status', 200), case.get('ctype'))
     try:
         args, writer = build_writer_from_argv(real, argv)
     except SystemExit:
@@ -1112,6 +1141,17 @@ def check_argv(ctx, real, scratch, case, pending):
         else:
             request, response = make_response(real, raw, case['header'], status=case.get('status', 200),
                                               content_type=case.get('ctype'))
+        existing = case.get('existing')
+        if existing and (case['prefix'] or '').startswith('<ROOT>'):
+            # an earlier run / an earlier download already left something at the target
+            first = namer.get_filename(request.url_info)
+            if not containment_problem(first, root, cfg) and '\x00' not in first:
+                if existing == 'dir':
+                    os.makedirs(first, exist_ok=True)
+                else:
+                    os.makedirs(os.path.dirname(first), exist_ok=True)
+                    if not os.path.isdir(first):
+                        open(first, 'wb').close()
         session = writer.session()
 
         def open_file(filename, response, mode='wb+'):
@@ -1123,8 +1163,18 @@ def check_argv(ctx, real, scratch, case, pending):
         final = session._filename
         outcome = 'ok'
     except Exception as e:
-        outcome = exc_name(e)
-        chosen = final = None
+        outcome = 'OSError' if type(e).__name__ in ('ProtocolError', 'OSError', 'IOError') else exc_name(e)
+        err = repr(e)
+        # a name chosen before the exception is still judged; an exception AFTER the choice (e.g. the
+        # timestamping session touching request.fields of an ftp request) is not the namer's
+        chosen = final = getattr(locals().get('session'), '_filename', None)
+        if chosen:
+            ctx.tag('argv:raised-after-choice:' + outcome)
+            outcome = 'OSError'
+    if outcome not in ('ok', 'OSError'):
+        ctx.fail('namer-raises', 'argv_writer', dict(case),
+                 'wpull %s: the writer session raises %s: no local path is chosen'
+                 % (' '.join(argv).replace(scratch, '<scratch>'), err.replace(scratch, '<scratch>')))
     ctx.case(key, tags=['argv:' + type(writer).__name__, 'argv:' + outcome, 'argv:os=' + os_real,
                         'argv:modes=%s' % ('absent' if not case['modes'] else len(modes))])
     if args.default_page == '':
@@ -1169,6 +1219,14 @@ def argv_cases(rng, n_random):
     for ms in (['lower'], ['upper'], ['lower', 'nocontrol'], ['windows', 'lower'], ['unix', 'upper']):
         for u in ARGV_FTP[:4]:
             cases.append(mk([ms], ['-x'], '<ROOT>', u))
+    # second download / second run: the target is already there (plain `wpull URL` uses the anti-clobber
+    # writer, -r the ignore writer, -N timestamping, -nc ...), names that look like templates
+    for opts in ([], ['-x'], ['-r'], ['-N'], ['-nc'], ['-c'], ['-x', '--content-disposition']):
+        for url in FORMAT_URLS[::3] + ARGV_HTTP[:2] + ARGV_FTP[4:6]:
+            for existing in ('file', 'dir'):
+                c = mk([], opts, '<ROOT>', url)
+                c['existing'] = existing
+                cases.append(c)
     cases.append(mk([['ascii', 'ascii']], [], '<ROOT>', ARGV_FTP[0]))
     cases.append(mk([['windows'], ['lower']], ['-x'], '<ROOT>', ARGV_FTP[0]))        # the last occurrence replaces the first
     cases.append(mk([['nocontrol'], ['unix', 'upper']], ['-x'], '<ROOT>', ARGV_FTP[4]))
@@ -1192,11 +1250,13 @@ def argv_cases(rng, n_random):
             k = rng.choice([1, 2, 3])
             url = 'ftp://example.com/' + '/'.join(gen_seg(rng) for _ in range(k)) + rng.choice(['', '/'])
             cases.append(mk(ms, opts, prefix, url, None, extra))
+            cases[-1]['existing'] = rng.choice([None, None, 'file', 'dir'])
         else:
             k = rng.choice([0, 1, 2])
             url = rng.choice(['http', 'https']) + '://example.com/' + '/'.join(gen_seg(rng) for _ in range(k)) + rng.choice(['', '/', '?a=/..'])
             cases.append(mk(ms, opts, prefix, url, gen_header(rng) if rng.random() < 0.85 else None, extra,
                             rng.choice([200, 200, 404]), rng.choice([None, 'text/html', 'text/css'])))
+            cases[-1]['existing'] = rng.choice([None, None, 'file', 'dir'])
     return cases
 
 
@@ -1247,6 +1307,31 @@ def stream_foldtable(ctx, real, thorough):
     ctx.evaluations += n
     ctx.tag('foldtable', n)
     ctx.note('fold_table_real_code', '%d single non-ASCII characters x lower/upper through the real safe_filename' % n)
+
+
+FORMAT_URLS = (['http://example.com/%s/%s/escaped.txt' % (n, n) for n in FORMAT_NAMES if '/' not in n]
+               + ['http://example.com/pub/%s' % n for n in FORMAT_NAMES]
+               + ['http://example.com/pub/x.txt?%s' % n for n in FORMAT_NAMES[:12]])
+
+
+def writer_matrix():
+    """every writer kind x the target already there (as a file, as a directory, not at all) x names that look
+    like str.format / %-format / string.Template / re templates (a suffix built from the sanitised path with a
+    template mechanism would expand them AFTER sanitising)"""
+    cfg = {'os_type': 'unix', 'no_control': True, 'ascii_only': False, 'case': None, 'max_length': None,
+           'index': 'index.html', 'use_dir': True, 'cut': None, 'protocol': False, 'hostname': True}
+    for w in WRITERS:
+        for obstacles in (['file-at-file'], ['dir-at-file'], ['file-at-dir'], []):
+            for url in FORMAT_URLS:
+                yield {'stream': 'writer', 'cfg': cfg, 'raw': url, 'header': None, 'writer': w,
+                       'flags': {'adjust': False, 'trust': False, 'cont': False, 'status': 200, 'ctype': None},
+                       'obstacles': obstacles}
+    for w in WRITERS:       # the same names arriving as Content-Disposition values, target existing
+        for n in FORMAT_NAMES:
+            yield {'stream': 'writer', 'cfg': cfg, 'raw': 'http://example.com/a/b.txt',
+                   'header': 'attachment; filename=%s' % n, 'writer': w,
+                   'flags': {'adjust': True, 'trust': True, 'cont': False, 'status': 200, 'ctype': 'text/html'},
+                   'obstacles': ['file-at-file']}
 
 
 # ------------------------------------------------------------------ entry points
@@ -1386,6 +1471,8 @@ def run(ctx):
     # the real writer sessions
     scratch = tempfile.mkdtemp(prefix='c15-')
     try:
+        for case in writer_matrix():
+            check_writer(ctx, real, scratch, case)
         for _ in range(ctx.scale(3000, 40000)):
             check_writer(ctx, real, scratch, gen_writer_case(rng))
     finally:
